@@ -116,16 +116,37 @@ class Ctx:
             cmd += extra
         cmd.append(module + ".tla")
         timed_out = False
-        try:
-            p = subprocess.run(cmd, cwd=work, env=env, capture_output=True, text=True, timeout=timeout)
-            out, rc = p.stdout, p.returncode
-        except subprocess.TimeoutExpired as e:
-            if not partial_ok:
+        if partial_ok:
+            # observation runs: stop as soon as TLC has printed no record verdict for `stall` seconds (a record it cannot
+            # evaluate blocks its chunk; waiting for the full time limit would not change anything) and keep what it printed
+            import threading
+            stall = 150 if self.tier == "quick" else 240
+            proc = subprocess.Popen(cmd, cwd=work, env=env, stdout=subprocess.PIPE, stderr=subprocess.STDOUT, text=True)
+            lines, last = [], [time.time(), 0]
+            def reader():
+                for line in proc.stdout:
+                    lines.append(line)
+                    if line.startswith('<<"'):
+                        last[0], last[1] = time.time(), last[1] + 1
+            th = threading.Thread(target=reader, daemon=True)
+            th.start()
+            t_start = time.time()
+            while proc.poll() is None:
+                time.sleep(1)
+                now = time.time()
+                if now - t_start > timeout or (last[1] > 0 and now - last[0] > stall):
+                    proc.kill()
+                    timed_out = True
+                    break
+            proc.wait()
+            th.join(timeout=10)
+            out, rc = "".join(lines), (0 if timed_out else proc.returncode)
+        else:
+            try:
+                p = subprocess.run(cmd, cwd=work, env=env, capture_output=True, text=True, timeout=timeout)
+                out, rc = p.stdout, p.returncode
+            except subprocess.TimeoutExpired:
                 raise Broken(f"TLC {module} timed out after {timeout}s")
-            out = e.stdout or ""
-            if isinstance(out, bytes):
-                out = out.decode("utf-8", "replace")
-            rc, timed_out = 0, True
         res = {"raw": out, "tags": {}, "generated": 0, "distinct": 0, "rc": rc, "timed_out": timed_out}
         for line in out.splitlines():
             if line.startswith('<<"'):
@@ -164,7 +185,7 @@ class Ctx:
         missing = [i for i in ids if i not in done]
         if not out["timed_out"]:
             return tags, []
-        self.log(f"{label}: TLC gave no verdict on {len(missing)} of {len(ids)} records within {timeout}s; re-running those individually")
+        self.log(f"{label}: TLC gave no verdict on {len(missing)} of {len(ids)} records (time limit {timeout}s or no progress); re-running those individually")
         recs = {r["id"]: r for r in read_ndjson(path)}
         p2 = path + ".retry"
         write_ndjson(p2, [recs[i] for i in missing])
